@@ -208,15 +208,24 @@ func c16MultiFor(kind string, sizes []int64, seed int64) (*MultiReaderAt, []byte
 
 func TestVerifC16Reader(t *testing.T) {
 	recM := ev.New("C16", "reader-multi")
-	defer recM.Flush()
 	recS := ev.New("C16", "reader-split")
-	defer recS.Flush()
+	defer func() {
+		for _, r := range []*ev.Recorder{recM, recS} {
+			if err := r.Flush(); err != nil {
+				t.Errorf("evidence fragment not written: %v", err)
+			}
+		}
+	}()
 	recM.Rule("distinct = piece-size vectors with >= 2 pieces for which at least one read window strictly containing a piece boundary was checked (counter reads_crossing_boundary = number of such windows)")
 	recS.Rule("distinct = (backing kind, original header length, piece-size vector) with >= 1 piece for which at least one read window crossing the header/piece or a piece/piece boundary was checked")
 
 	var rc c16ReadCase
-	if ev.LoadReplay(&rc) {
-		c16Replay(t, recM, recS, rc)
+	if os.Getenv("VERIF_REPLAY") != "" {
+		if ev.LoadReplay(&rc) && (rc.Part == "multi" || rc.Part == "split") {
+			c16Replay(t, recM, recS, rc)
+		} else {
+			recM.Note("replay", "the replay file is not a reader case; nothing to do in this part")
+		}
 		return
 	}
 	c16MultiExhaustive(recM)
